@@ -21,6 +21,11 @@
 // named v<digits> (types as s-expressions over class NAMES: nil never any (c Name) (x Name) (or a b)
 // (and a b) (not a); anything else is (unknown ...)), or "reject:<line>:<message>".
 //
+// Mode "diags" (-extra diags): streams c02.subhist / c02.ifc (lib/c02ifc.py). Reads "id \t source" lines, ONE
+// checker.CheckSource run per line (a fresh Checker each time), prints "id \t - \t ok" or
+// "id \t - \t L<line>:<message>|L<line>:<message>..." with EVERY failure diagnostic of the run, so that the
+// caller can attribute verdicts to the individual questions of a history by line.
+//
 // Type s-expressions:  Int Float String bool Bool nil any never true false
 //
 //	(i <int>) (f <mantissa> <exp>)  = mantissa / 2^exp   (s <letters>)   (opt t)   (or a b)
@@ -413,6 +418,29 @@ func typesOf(src string) string {
 	})
 }
 
+// every failure of one checker run, by line
+func diagsOf(src string) string {
+	return hx.Guard(func() string {
+		_, dl := checker.CheckSource("<c02>", src, nil, bitfield.BitField16{}, nil)
+		var parts []string
+		r := strings.NewReplacer("\t", " ", "\n", " ", "|", "/")
+		for _, d := range dl {
+			if d.Severity != diagnostic.FAIL {
+				continue
+			}
+			ln := 0
+			if d.Location != nil && d.Location.StartPos != nil {
+				ln = d.Location.StartPos.Line
+			}
+			parts = append(parts, fmt.Sprintf("L%d:%s", ln, r.Replace(d.Message)))
+		}
+		if len(parts) == 0 {
+			return "ok"
+		}
+		return strings.Join(parts, "|")
+	})
+}
+
 func unescape(s string) string {
 	var b strings.Builder
 	for i := 0; i < len(s); i++ {
@@ -522,6 +550,18 @@ func main() {
 				continue
 			}
 			hx.Emit(parts[0], "-", typesOf(unescape(parts[1])))
+		}
+		return
+	}
+	if o.Extra == "diags" {
+		sc := bufio.NewScanner(os.Stdin)
+		sc.Buffer(make([]byte, 1<<20), 1<<26)
+		for sc.Scan() {
+			parts := strings.SplitN(sc.Text(), "\t", 2)
+			if len(parts) != 2 {
+				continue
+			}
+			hx.Emit(parts[0], "-", diagsOf(unescape(parts[1])))
 		}
 		return
 	}
